@@ -98,6 +98,9 @@ pub enum Prog {
     /// the same with timers of half a millisecond: an interval that ticks three times, a one-shot
     /// after it (no runtime's timer fires early or turns a short wait into none)
     SubMsTicks,
+    /// timers armed with durations nobody will see the end of (Duration::MAX, 2^62 s): they stay
+    /// armed, quietly, while the actor answers calls, and go when it goes
+    HugeTimers,
     /// call, then let the last handle go: the actor stops gracefully
     CallDropAll,
     /// a handler panics; then await the address and join
@@ -127,8 +130,9 @@ pub enum Prog {
     OwnerScript(u8),
 }
 
-pub const PROGS: [Prog; 17] = [
+pub const PROGS: [Prog; 18] = [
     Prog::SubMsTicks,
+    Prog::HugeTimers,
     Prog::Call,
     Prog::DropOthersCall,
     Prog::DetachCall,
@@ -217,7 +221,7 @@ fn ops_for(prog: Prog, owning: bool) -> Vec<Op> {
                 vec![Op::Call(t, 1), Op::Clone(H::Addr(0)), Op::Stop(H::Addr(0)), Op::Await(H::Addr(1))]
             }
         }
-        Prog::Ticks | Prog::SubMsTicks => vec![Op::Sleep(4), Op::Call(t, 1)],
+        Prog::Ticks | Prog::SubMsTicks | Prog::HugeTimers => vec![Op::Sleep(4), Op::Call(t, 1)],
         Prog::CallDropAll => vec![Op::Call(t, 1)],
         Prog::AbandonJoinDetachCall => {
             if owning {
@@ -336,6 +340,12 @@ impl Scene for S {
         if self.prog == Prog::Ticks {
             r.started_actions.push(Action::Interval { timer: 1, period: 1 });
         }
+        if self.prog == Prog::HugeTimers {
+            r.started_actions.push(Action::DelayedExec { timer: 3, delay: crate::world::FOREVER });
+            r.started_actions.push(Action::Interval { timer: 4, period: crate::world::AGES });
+            r.started_actions.push(Action::DelayedSend { timer: 5, delay: crate::world::FOREVER });
+            r.started_actions.push(Action::IntervalWith { timer: 6, period: crate::world::FOREVER });
+        }
         if self.prog == Prog::SubMsTicks {
             r.started_actions.push(Action::Interval { timer: 1, period: 1 });
             r.started_actions.push(Action::DelayedSend { timer: 2, delay: 1 });
@@ -423,7 +433,7 @@ impl Scene for S {
                 Prog::DropOthersCall => o.i == 3,
                 Prog::DetachCall => (o.i == 2 && an.ops.len() > 3) || (o.i == 1 && an.ops.len() <= 3),
                 Prog::StopAwaitJoin => o.i == 0,
-                Prog::Ticks | Prog::SubMsTicks => o.i == 1,
+                Prog::Ticks | Prog::SubMsTicks | Prog::HugeTimers => o.i == 1,
                 Prog::CallDropAll | Prog::PanicAwaitJoin => o.i == 0,
                 Prog::AbandonJoinDetachCall | Prog::AbandonJoinDropOwnerCall | Prog::PendingJoinDetachCall | Prog::InFlightJoinDetachCall | Prog::UnwindDropOwnerCall => true,
                 Prog::JoinStartDropOwnerStopAwait | Prog::ConsumeSyncAwait | Prog::JoinStartDetachStopAwait => true,
@@ -478,6 +488,26 @@ impl Scene for S {
                 }
             }
         }
+        if self.prog == Prog::HugeTimers {
+            crate::check::oblige("timers-work");
+            let going = an.enters.iter().find(|e| e.a == 0 && e.cb == Cb::Stopped).map(|e| e.idx).into_iter().chain(an.task_end(0).map(|(i, _)| i)).min();
+            if let Some(d) = t.log.iter().position(|e| matches!(e.ev, Ev::Ctx { a: 0, op: crate::world::CtxOp::ExecDropped(3), .. })) {
+                if going.is_none_or(|g| d < g) {
+                    out.push(Violation {
+                        clause: "timers-work",
+                        key: format!("C18/{RUNTIME}/huge-timer-gave-up/entry={:?}", self.entry),
+                        detail: format!("on {RUNTIME}: the future given to delayed_exec(.., Duration::MAX) was dropped at t={} while its actor was alive", t.log[d].time),
+                    });
+                }
+            }
+            if let Some(e) = an.enters.iter().find(|e| matches!(e.cb, Cb::Tick { .. } | Cb::Exec { .. })) {
+                out.push(Violation {
+                    clause: "timers-work",
+                    key: format!("C18/{RUNTIME}/huge-timer-fired/entry={:?}", self.entry),
+                    detail: format!("on {RUNTIME}: {:?} was handled at t={} - its timer was armed for ages", e.cb, e.time),
+                });
+            }
+        }
         if matches!(self.prog, Prog::Ticks | Prog::SubMsTicks) {
             let ticks = an.enters.iter().filter(|e| matches!(e.cb, Cb::Tick { timer: 1, .. }) && e.time <= 3).count();
             if ticks != 3 {
@@ -530,9 +560,9 @@ fn cases(tier: Tier) -> Vec<Case> {
             v.push(Case {
                 desc: format!("runtime-equivalence entry={entry:?} program={prog:?}"),
                 exec: ExecCfg {
-                    horizon: if matches!(prog, Prog::Ticks | Prog::SubMsTicks) { 4 } else { 25 },
+                    horizon: if matches!(prog, Prog::Ticks | Prog::SubMsTicks | Prog::HugeTimers) { 4 } else { 25 },
                     spin_is_outcome: true,
-                    real_crosscheck: prog != Prog::SubMsTicks,
+                    real_crosscheck: !matches!(prog, Prog::SubMsTicks | Prog::HugeTimers),
                     // programs that poll a join future exactly once see whether the handle's lock suspends
                     lock_yield_is_choice: matches!(prog, Prog::InFlightJoinDetachCall | Prog::InFlightJoinSecondJoin) || matches!(prog, Prog::OwnerScript(k) if crate::props::c17::owner_scripts()[k as usize].0.contains("polled")),
                     ..ExecCfg::default()
